@@ -15,7 +15,7 @@ from sim import workload as W
 from sim.world import Session, classify, exc_signature, reference_world
 
 PROPERTY = "C16"
-SESSIONS = {"quick": 160, "thorough": 4000}
+SESSIONS = {"quick": 160, "thorough": 140}
 BUDGET_S = {"quick": 110, "thorough": 1500}
 CAP_S = {"quick": 240, "thorough": 480}
 FORMS = ("built", "optimized", "optimized_nofuse", "lowered")
